@@ -104,9 +104,52 @@ let ghost mut done: Set<String> = Set::empty();
                 )
     with u.mod("common"):
         with u.mod("hyper_client", uses="use http::Uri;"):
-            u.take_fn(hc, "query_pairs", external_body=True, contract="""
-        ensures pairs_view(r@) == url_pairs(*uri),
-""")
+            u.take_fn(hc, "query_pairs",
+                extra_attrs="#[verifier::loop_isolation(false)]",
+                contract="""
+        ensures pairs_view(r@) == url_pairs(*uri),  // @C02.query_pairs.parses_every_parameter
+""",
+                pre_body="proof { reveal_strlit(\"\"); assert(\"\"@.len() == 0); assert(\"\"@ =~= Seq::<char>::empty()); }\nlet ghost q: Seq<char> = match uri_query(*uri) { Some(x) => x, None => Seq::<char>::empty() };",
+                desugar_for={0: "vx_it"},
+                loops={0: """
+        invariant
+            query@ == q,
+            vx_split_remaining(&vx_it).len() <= split_char(q, '&').len(),
+            forall|j: int| 0 <= j < vx_split_remaining(&vx_it).len() ==> (#[trigger] vx_split_remaining(&vx_it)[j])@ == split_char(q, '&')[split_char(q, '&').len() - vx_split_remaining(&vx_it).len() + j],
+            pairs_view(pairs@) == pairs_of_pieces(split_char(q, '&').subrange(0, split_char(q, '&').len() - vx_split_remaining(&vx_it).len())),
+        decreases vx_split_remaining(&vx_it).len(),
+"""},
+                hints=[
+                    ("for pair in", None, "before", "proof { assert(split_char(q, '&').subrange(0, 0) =~= Seq::<Seq<char>>::empty()); assert(pairs_view(pairs@) =~= Seq::<(Seq<char>, Seq<char>)>::empty()); }"),
+                    ("let mut split = ", None, "before", """
+            proof {
+                let ps = split_char(q, '&');
+                let i0 = ps.len() - vx_split_remaining(&vx_it).len() - 1;
+                assert(ps.subrange(0, i0 + 1).drop_last() =~= ps.subrange(0, i0));
+                assert(ps.subrange(0, i0 + 1).last() == pair@);
+            }"""),
+                    ("pairs.push(", None, "after", """
+            proof {
+                let ps = split_char(q, '&');
+                let i0 = ps.len() - vx_split_remaining(&vx_it).len() - 1;
+                assert(pairs@.last().0@ == key@ && pairs@.last().1@ == value@);
+                assert(pairs_view(pairs@) =~= pairs_of_pieces(ps.subrange(0, i0)).push((key@, value@)));
+                assert(piece_to_pair(pair@) == (key@, value@));
+            }"""),
+                    ("pairs", -1, "before", "proof { assert(split_char(q, '&').subrange(0, split_char(q, '&').len() as int) =~= split_char(q, '&')); }"),
+                ],
+                e9=[
+                    ("query.split('&')", None, "query: &'a str", "query", "VxSplit<'a>", """
+    ensures vx_split_remaining(&r).len() == split_char(query@, '&').len(),
+            forall|i: int| 0 <= i < vx_split_remaining(&r).len() ==> (#[trigger] vx_split_remaining(&r)[i])@ == split_char(query@, '&')[i],""",
+                     dict(name="vx_e11_split_amp", generics="<'a>", wrap="VxSplit")),
+                    ("pair.splitn(2, '=')", None, "pair: &'a str", "pair", "VxSplitN<'a>", """
+    ensures vx_splitn_remaining(&r).len() == (if split_once_eq(pair@).1 is Some { 2int } else { 1int }),
+            vx_splitn_remaining(&r)[0]@ == split_once_eq(pair@).0,
+            split_once_eq(pair@).1 matches Some(v) ==> vx_splitn_remaining(&r)[1]@ == v,""",
+                     dict(name="vx_e11_splitn_eq", generics="<'a>", wrap="VxSplitN")),
+                ],
+            )
     with u.mod("key_keeper"):
         with u.mod("key", uses="use std::collections::HashMap;\nuse crate::proxy::{proxy_connection::ConnectionLogger, Claims};\nuse http::Uri;\nuse log::Level as LoggerLevel;\nuse std::ffi::OsString;\nuse std::path::PathBuf;\nuse crate::common::hyper_client;\nuse vstd::std_specs::hash::*;"):
             u.take(key, "Privilege", "struct")
